@@ -276,7 +276,7 @@ pub fn index_nested() -> Report {
 // ------------------------------------------------------------------ C09
 /// rewrite keeps what every position resolves to
 pub fn rewrite() -> Report {
-    let bound = "maps over sources listed in orders different from first use (3 names, one duplicated / unreferenced), contents on a subset, names on/off, contents on/off, prefixes {none, 'pre', 'pre/'}; plus 6 sources that start with the prefix text at and off a component boundary x 7 prefix lists (several prefixes, nested prefixes) x source root {none, relative, with '/', absolute}";
+    let bound = "maps over sources listed in orders different from first use (3 names, one duplicated / unreferenced), contents on a subset, names on/off, contents on/off, prefixes {none, 'pre', 'pre/'}; plus 6 sources that start with the prefix text at and off a component boundary x 10 prefix lists (several prefixes, nested prefixes, a later prefix matching what an earlier one leaves) x source root {none, relative, with '/', absolute}; flatten_and_rewrite against flatten() then rewrite() on indexes with one section at (0,0) / elsewhere / two sections (file, debug id, tables, tokens)";
     let mut cases = 0u64;
     let listed: Vec<Vec<&str>> = vec![vec!["pre/a.js", "pre/b.js"], vec!["pre/b.js", "pre/a.js"], vec!["unused.js", "pre/b.js", "pre/a.js"], vec!["pre/a.js", "pre/a.js", "pre/b.js"], vec!["pre/b.js", "unused.js", "pre/a.js", "pre/b.js"]];
     for srcs in &listed { for cmask in 0u32..(1 << srcs.len()) { for first in 0..srcs.len() { for with_names in [true, false] { for with_contents in [true, false] { for prefix in [None, Some("pre"), Some("pre/")] {
@@ -318,7 +318,7 @@ pub fn rewrite() -> Report {
     } } } } } }
     // prefixes must match at a path-component boundary only; several prefixes (first match wins); a source root is folded into the names, not re-applied
     let srcs2 = ["pre/a.js", "pre-gen/b.js", "prefix.js", "pre", "other/pre/c.js", "pre/pre/d.js"];
-    let prefix_sets: Vec<Vec<&str>> = vec![vec![], vec!["pre"], vec!["pre/"], vec!["zzz", "pre"], vec!["pre/pre", "pre"], vec!["root/pre"], vec!["other"]];
+    let prefix_sets: Vec<Vec<&str>> = vec![vec![], vec!["pre"], vec!["pre/"], vec!["zzz", "pre"], vec!["pre/pre", "pre"], vec!["root/pre"], vec!["other"], vec!["other", "pre"], vec!["pre", "other"], vec!["pre", "pre/pre"]];
     for root in [None, Some("root"), Some("root/"), Some("/abs")] { for prefixes in &prefix_sets { for first in 0..srcs2.len() {
         cases += 1;
         let raw: Vec<RawToken> = (0..srcs2.len()).map(|k| { let i = (first + k) % srcs2.len(); RawToken { dst_line: 0, dst_col: 3 * k as u32, src_line: i as u32, src_col: 1, src_id: i as u32, name_id: !0, is_range: false } }).collect();
@@ -332,6 +332,26 @@ pub fn rewrite() -> Report {
         let want: Vec<(u32, String, u32)> = before.iter().map(|b| (b.0, strip(&b.1), b.2)).collect();
         if after != want { return r("rewrite", bound, cases, Some(format!("sources {srcs2:?} with source root {root:?}, strip_prefixes {prefixes:?}: tokens (col, source, line) {before:?} became {after:?}, expected {want:?}"))); }
     } } }
+    // flatten_and_rewrite is the rewrite of the flattened map, whatever the shape of the index: one section at (0,0), one section elsewhere, two sections; file and debug id
+    // are those of the flattened map (the index's file, no debug id), not those of an embedded map
+    {
+        let id = "00000000-0000-0000-0000-00000000000a";
+        let inner = |file: &str, src: &str| format!(r#"{{"version":3,"file":"{file}","debug_id":"{id}","sources":["pre/{src}"],"sourcesContent":["// {src}"],"names":["n"],"mappings":"AAAAA,EAAAA;AACA"}}"#);
+        let shapes: Vec<(&str, Vec<((u32, u32), String)>)> = vec![("one section at (0,0)", vec![((0, 0), inner("chunk-a.js", "a.js"))]), ("one section at (0,7)", vec![((0, 7), inner("chunk-a.js", "a.js"))]),
+            ("two sections", vec![((0, 0), inner("chunk-a.js", "a.js")), ((5, 0), inner("chunk-b.js", "b.js"))])];
+        for (what, secs) in &shapes { for prefixes in [vec![], vec!["pre"]] { for with_names in [true, false] {
+            cases += 1;
+            let doc = format!(r#"{{"version":3,"file":"bundle.js","sections":[{}]}}"#, secs.iter().map(|(o, m)| format!(r#"{{"offset":{{"line":{},"column":{}}},"map":{m}}}"#, o.0, o.1)).collect::<Vec<_>>().join(","));
+            let idx = match SourceMapIndex::from_slice(doc.as_bytes()) { Ok(i) => i, Err(e) => return r("rewrite", bound, cases, Some(format!("index document {doc}: {e}"))) };
+            let opts = RewriteOptions { with_names, strip_prefixes: &prefixes, ..Default::default() };
+            let want = match guarded(|| idx.flatten().and_then(|m| m.rewrite(&opts))) { Ok(Ok(m)) => m, o => return r("rewrite", bound, cases, Some(format!("index with {what}: flatten().rewrite() failed: {:?}", o.map(|x| x.map(|_| ()).map_err(|e| e.to_string()))))) };
+            let got = match guarded(|| idx.flatten_and_rewrite(&opts)) { Ok(Ok(m)) => m, o => return r("rewrite", bound, cases, Some(format!("index with {what}: flatten_and_rewrite failed: {:?}", o.map(|x| x.map(|_| ()).map_err(|e| e.to_string()))))) };
+            let view = |m: &SourceMap| (m.get_file().map(|s| s.to_string()), m.get_debug_id().map(|d| d.to_string()), m.sources().map(|s| s.to_string()).collect::<Vec<_>>(), m.names().map(|s| s.to_string()).collect::<Vec<_>>(),
+                (0..m.get_source_count()).map(|i| m.get_source_contents(i).map(|s| s.to_string())).collect::<Vec<_>>(), m.tokens().map(|t| (t.get_dst(), t.get_src_id(), t.get_src(), t.get_name().map(|s| s.to_string()))).collect::<Vec<_>>());
+            if view(&got) != view(&want) { return r("rewrite", bound, cases, Some(format!("index (file bundle.js) with {what}, strip_prefixes {prefixes:?}, names {with_names}: flatten_and_rewrite gives (file, debug id, sources, names, contents, tokens) {:?}, flatten() then rewrite() gives {:?}", view(&got), view(&want)))); }
+            if got.get_file() != Some("bundle.js") { return r("rewrite", bound, cases, Some(format!("index (file bundle.js) with {what}: flatten_and_rewrite gives file {:?}", got.get_file()))); }
+        } } }
+    }
     r("rewrite", bound, cases, None)
 }
 
